@@ -46,7 +46,18 @@ func renderGuest(m Mod, app, idx int, nameKey, name string) obj {
 }
 
 // dial is the upstream address (= hosts pool key) of reverse proxy key k in the current case.
-func dial(nonce, k int) string { return fmt.Sprintf("h%d-%d.invalid:80", nonce, k) }
+func dial(nonce, k int) string {
+	if k == StreamKey && wsAddr != "" {
+		return wsAddr // a real backend (fresh address for every case): streams can be opened through it
+	}
+	return fmt.Sprintf("h%d-%d.invalid:80", nonce, k)
+}
+
+// wsAddr: the address of the harness's WebSocket backend for this case.
+var wsAddr string
+
+// streamPath: requests for it reach the reverse proxy that is to have a stuck stream.
+const streamPath = "/verif-ws"
 
 func curNonce() int {
 	mu.Lock()
@@ -66,6 +77,8 @@ func renderRp(m Mod) obj {
 		o["trusted_proxies"] = []any{"not-an-ip"}
 	case 4:
 		o["handle_response"] = []any{obj{"routes": []any{obj{"handle": []any{obj{"handler": "static_response", "bogus": 1}}}}}}
+	case 5:
+		o["flush_interval"] = -1 // (the marker the read-back recognises; stream_close_delay stays 0)
 	}
 	return o
 }
@@ -96,6 +109,9 @@ func abstractRp(o obj) (Mod, bool) {
 	if _, ok := o["handle_response"]; ok {
 		f, n = 4, n+1
 	}
+	if _, ok := o["flush_interval"]; ok {
+		f, n = 5, n+1
+	}
 	return Mod{f, k}, n <= 1
 }
 
@@ -118,7 +134,11 @@ func renderApp(a App) obj {
 		routes := []any{}
 		for j, m := range a.Mods {
 			if m.IsRp() {
-				routes = append(routes, obj{"match": []any{obj{"path": []any{"/verif-rp-never"}}},
+				path := "/verif-rp-never"
+				if m.Fault == 5 {
+					path = streamPath
+				}
+				routes = append(routes, obj{"match": []any{obj{"path": []any{path}}},
 					"handle": []any{renderRp(m)}})
 			} else {
 				routes = append(routes, obj{"handle": []any{renderGuest(m, 3, j+1, "handler", "verif_probe")}})
